@@ -122,6 +122,9 @@ type Scenario struct {
 	NoBootstrap  []string              `json:"no_bootstrap,omitempty"`   // voters whose Bootstrap call is left to the program
 	LatencyUS    int                   `json:"latency_us,omitempty"`
 	JitterUS     int                   `json:"jitter_us,omitempty"`
+	TickMS       int                   `json:"tick_ms,omitempty"`  // timed replay (RaftTimed.tla): virtual time per Tick
+	ETMS         int                   `json:"et_ms,omitempty"`    // election timeout (default 300)
+	LeaseMS      int                   `json:"lease_ms,omitempty"` // lease duration (default 100)
 }
 
 type Runner struct {
@@ -676,6 +679,7 @@ func (r *Runner) converged(leader *Node, ids []string) bool {
 // Run executes the scenario inside the current bubble.
 func (r *Runner) Run() {
 	c, sc := r.c, r.sc
+	c.timed = sc.TickMS > 0
 	r.setup()
 	for _, s := range sc.Stimuli {
 		r.Do(s)
